@@ -811,6 +811,16 @@ static void scen_run(void)
                                         CHK(C12, G_buf[i] == SNAP_buf[i], "a refused write changed the command buffer");
         }
 
+        /* C18: a unit whose byte was refused is still partially emitted - the machine must stay in its flushing state (a busy
+         * query right after this call must not see it idle); seeded change C18_r7 advanced the state before the write was accepted */
+        if (W.writes == 1 && W.wr_ret[0] != 1) {
+                if (pre_cflush)
+                        CHK(C18, o->state == SNAP.state && o->position == SNAP.position, "a refused write moved the command FSM on: the byte is still owed");
+                if (pre_uflush)
+                        CHK(C18, o->unsolicited_fsm.state == SNAP.unsolicited_fsm.state && o->unsolicited_fsm.position == SNAP.unsolicited_fsm.position,
+                            "a refused write moved the event FSM on: the byte is still owed");
+        }
+
         /* ---- C13: ring is popped only by the idle event FSM, oldest entry first -------------------- */
         {
                 struct cat_unsolicited_fsm *u = &o->unsolicited_fsm, *p = &SNAP.unsolicited_fsm;
